@@ -8,7 +8,7 @@
 // `go test ./...` in this directory (fixtures under testdata/) and validated differentially
 // against the compiled Go code by validate/ (bin/validate-gofunc).
 //
-// usage: gofunc <repo root> <module path> <pkgdir> <out.v> <prefix> Func [Type.Method | import/path:Func ...]
+// usage: gofunc <repo root> <module path> <pkgdir> <out.v> <prefix> Func [Type.Method | import/path:Func | F#prefix | F#extern ...]
 //        gofunc -scan <repo root> <module path> <pkgdir>      (list what is translatable)
 
 /* ------------------------------------------------------------------------------ RULES
@@ -38,7 +38,23 @@ Parameters.  A parameter (or receiver) of a representable type is one parameter 
   parameter per field path that the body reads, v_<name>_<field>[_<field>...], in order of
   first use (pointers on the path are ASSUMED non-nil).  len(p.f) of a slice of
   non-integers is the parameter n_<name>_<field> (ASSUMED >= 0).  Fields, slices and
-  package-level variables cannot be written, so these values are constant during the call.
+  package-level variables cannot be written (fields of parameters can: see "Fields written"),
+  so a field the function does not assign is constant during the call.
+Fields written.  A function may assign fields of its parameters (p.f = e, p.f op= e, p.f++):
+  the field is a parameter as above and at the same time a variable of the definition; the
+  final values of all fields the function assigns are appended to its results (a function
+  without results then has just these).  A function that writes fields cannot be called
+  from translated code.  Slice elements, maps and pointers still cannot be written.
+Skipped calls.  The statements mu.Lock() / mu.Unlock() / mu.RLock() / mu.RUnlock() on a
+  sync.Mutex / sync.RWMutex, `defer mu.Unlock()` / `defer mu.RUnlock()`, and log.Printf /
+  log.Print / log.Println with constant or plain-name arguments are dropped: the semantics is
+  that of one goroutine, log output is not modelled.
+External functions.  "F#extern" (given before its callers) declares the package-level function
+  F, with integer/bool parameters and results, external: it is not translated and every call
+  site of it (outside loops only) becomes a parameter x_F_<k> of the calling definition -
+  "what the k-th call of F in this function returned"; the arguments are still evaluated.
+  This is how a clock enters.  ASSUMED: F does not touch the fields its callers read or write.
+  Definitions with such parameters are not validated differentially.
 Statements.  x := e, var x T [= e], x = e, x op= e, x++, x--, a, b = e1, e2 (parallel),
   a, b := f(...), _ = e (evaluated for its panics), if/else if/else (with init), switch on
   an integer/bool tag or tagless (no fallthrough; case expressions must not be able to
@@ -72,15 +88,18 @@ Results.  One result: its type; several: a tuple.  A function in which nothing c
   (Ok v | Panic | OutOfFuel, see coq/Lib/GoSem.v) and takes `fuel` first if it loops.
 Fragments.  "F#prefix" translates the longest translatable PREFIX of the body of F (a function
   that as a whole is outside the subset): its first k statements, stopping in front of the
-  first top-level return.  <prefix>F_prefix : option (v1 * ... * vn): None = control reached a
-  return statement inside the prefix (what is returned is not part of the fragment);
-  Some (...) = control reaches statement k+1 with these values of the representable
-  parameters and of the variables declared at the top level of the body (declaration order).
+  first top-level return.  <prefix>F_prefix : frag W V (coq/Lib/GoSem.v):
+    Returned n w   control reached the n-th return statement of F (source order) inside the
+                   prefix; w = the values, at that point, of the fields the prefix assigns
+                   (tt if none); what the statement returns is not part of the fragment
+    Reached v      control reaches statement k+1; v = the representable parameters, the
+                   variables declared at the top level of the body (declaration order) and
+                   the assigned fields.
   The comment in front of the definition says which statements and lines it covers; if the
   source changes so that k changes, the tuple changes shape and dependent proofs stop
   compiling.  A fragment cannot be called and is not validated differentially.
 Everything else (floats, maps, channels, pointers, closures, defer, go, select, goto,
-  labels, append/make/copy, writes to fields or slice elements, calls outside the set,
+  labels, append/make/copy, writes to slice elements, calls outside the set, other defers,
   generic or variadic functions, range over strings/maps/channels/integers) makes the
   function `NOT TRANSLATABLE: reason`: a comment in the output, so a proof that needs the
   definition stops compiling.
